@@ -67,7 +67,11 @@ class AppModel:
                 if tag in (types.InterestNack, types.ValidationFailure):
                     self.fatal = True
                 if tag != 'data':
-                    raise PyExc(tag, ('raised by the awaitable of express_interest',), getattr(node, 'lineno', None), it_.where())
+                    ex = PyExc(tag, ('raised by the awaitable of express_interest',), getattr(node, 'lineno', None), it_.where())
+                    if tag is types.InterestNack:
+                        ex.attrs['reason'] = run.fresh_int('nack_reason')        # InterestNack carries its reason code
+                        run.assume(z3.And(ex.attrs['reason'] >= 0, ex.attrs['reason'] < 2 ** 64))
+                    raise ex
                 if self.last['cbp']:
                     # discovery: any name under the prefix; its last component is arbitrary
                     rname = BufSeq.fresh(run, 'resp_name', 'memoryview')
@@ -125,6 +129,11 @@ def _main_havoc(field):
         if field == 'nyield':
             run.ghost['sf.nyield'] = run.fresh_int('nyield')
             return env.get('content')
+        if field == 'meta':
+            # what an earlier iteration left behind: the MetaInfo of some earlier answer (with or without a FinalBlockId)
+            fk = run.choose([('final_block_id=None', True), ('final_block_id', True)], 'earlier final')
+            fb = None if fk == 'final_block_id=None' else run.input_buf(run.fresh_name('earlier_final_block_id'), 'bytes')
+            return SymObj(object, dict(final_block_id=fb))
         return None
     return f
 
@@ -140,7 +149,7 @@ class segment_fetcher(Contract):
 
     loops = {('segment_fetcher.<locals>.retry', 1): LoopSpec(_retry_inv, ghost=_retry_ghost,
                                                               havoc={'future': _retry_havoc_app}),
-             ('segment_fetcher', 2): LoopSpec(_main_inv, havoc={'name': _main_havoc('name'), 'meta': lambda it, env, g: None,
+             ('segment_fetcher', 2): LoopSpec(_main_inv, havoc={'name': _main_havoc('name'), 'meta': _main_havoc('meta'),
                                                                   'content': _main_havoc('nyield')})}
 
     def setup(self, cx):
